@@ -91,6 +91,9 @@ func deliverToSubscription(
 					s.Where(sql.And(
 						// not necessary? maybe helps with indexes?
 						sql.EQ(t.C(message.TopicColumn), m.TopicID),
+						// ordering is per key: only a delivery of a message with the same
+						// order key can be the predecessor
+						sql.EQ(t.C(message.FieldOrderKey), *m.OrderKey),
 					))
 				},
 			).
